@@ -53,6 +53,11 @@ def main(argv):
             from . import designfam
 
             designfam.attach(rep, PROP, args.tier, d, args.jobs)
+            # the hierarchy must stay self-consistent after an EDIT of a restructured graph as well (region predecessors whose exiting
+            # block is itself a region, appended arcs): one-step edit histories enumerated by TLC, replayed on real objects
+            from .c16 import edited_generic
+
+            edited_generic(rep, args, d, "wf", "BCR", "2", "1")
     finally:
         tlc.cleanup(d)
     rep.assumptions += ["TLC and the CommunityModules Json reader", "harness projection (harness/project.py) faithfully flattens the live objects",
